@@ -38,9 +38,24 @@ type FaultCase struct {
 	FailAt int        `json:"fail_at,omitempty"` // reader error / cancel / cut position (source offset or message number)
 	CutDir string     `json:"cut_dir,omitempty"`
 	Writes []int      `json:"writes,omitempty"`
+	// ErrKind (kind reader): what the failing source returns: "" a plain error; "wrapeof" an error
+	// wrapping io.EOF (only the bare sentinel means end of data); "unexpected" io.ErrUnexpectedEOF;
+	// "withdata" the plain error together with the last bytes before the failure
+	ErrKind string `json:"err_kind,omitempty"`
 }
 
 var errSource = errors.New("source reader failed (injected)")
+var errSourceEOF = fmt.Errorf("source reader failed (injected), connection closed: %w", io.EOF)
+
+func sourceErr(kind string) error {
+	switch kind {
+	case "wrapeof":
+		return errSourceEOF
+	case "unexpected":
+		return io.ErrUnexpectedEOF
+	}
+	return errSource
+}
 
 // failingReader returns the content up to FailAt, then an error; cancelAt >= 0 cancels a
 // context instead when that offset is reached.
@@ -51,6 +66,8 @@ type failingReader struct {
 	cancel context.CancelFunc
 	fired  *bool
 	chunk  int
+	err    error // nil: errSource
+	withD  bool  // the error comes together with the bytes before the failure
 }
 
 func (r *failingReader) Read(p []byte) (int, error) {
@@ -63,6 +80,9 @@ func (r *failingReader) Read(p []byte) (int, error) {
 			r.cancel()
 			r.failAt = -1 // keep reading: the caller decides what a cancelled context means
 		} else {
+			if r.err != nil {
+				return 0, r.err
+			}
 			return 0, errSource
 		}
 	}
@@ -81,6 +101,13 @@ func (r *failingReader) Read(p []byte) (int, error) {
 	}
 	copy(p, r.b[r.off:r.off+n])
 	r.off += n
+	if r.withD && r.cancel == nil && r.failAt >= 0 && r.off >= r.failAt && n > 0 {
+		*r.fired = true
+		if r.err != nil {
+			return n, r.err
+		}
+		return n, errSource
+	}
 	return n, nil
 }
 
@@ -91,7 +118,7 @@ func init() { Register(propC10{}) }
 func (propC10) ID() string    { return "C10" }
 func (propC10) Level() string { return "fault_enumeration" }
 func (propC10) Rule() string {
-	return "cases: a Set/SetReader/Create of length L (L from {1, 100, 2047..2049, 32767..32769, 65537, seeded <= 150 KiB}) on a key with or without a previous value, 1-3 roots; fault kinds enumerated by run index: ENOSPC with the failing roots' real room at each of {0, 1, chunk-1, chunk, chunk+1, L-1} and seeded positions (chunk = 32 KiB copy buffer), all-or-nothing and after a partial write, on every non-empty subset of roots, honest and over-reporting disks; source reader failing at each of those offsets (5 read shapes); context cancelled at a source offset; through the inline client and the external client over the simulated gRPC transport (there also: link cut after the k-th message in either direction, server-side rejection); fault-free control runs; oracle: (a) nil => Get returns the source bytes exactly, (b) error => right class and the key still reads its previous value / not found, (c) a root that really has room and reported more free space (and > 0) than every root that has not => nil; distinct = hash(case); non-trivial = the injected fault actually fired before the last byte was stored"
+	return "cases: a Set/SetReader/Create of length L (L from {1, 100, 2047..2049, 32767..32769, 65537, seeded <= 150 KiB}) on a key with or without a previous value, 1-3 roots; fault kinds enumerated by run index: ENOSPC with the failing roots' real room at each of {0, 1, chunk-1, chunk, chunk+1, L-1} and seeded positions (chunk = 32 KiB copy buffer), all-or-nothing and after a partial write, on every non-empty subset of roots, honest and over-reporting disks; source reader failing at each of those offsets (5 read shapes; a plain error, an error wrapping io.EOF, io.ErrUnexpectedEOF, the error returned together with the last bytes); context cancelled at a source offset; through the inline client and the external client over the simulated gRPC transport (there also: link cut after the k-th message in either direction, server-side rejection); fault-free control runs; oracle: (a) nil => Get returns the source bytes exactly, (b) error => right class and the key still reads its previous value / not found, (c) a root that really has room and reported more free space (and > 0) than every root that has not => nil; distinct = hash(case); non-trivial = the injected fault actually fired before the last byte was stored"
 }
 func (propC10) Assumptions() []string {
 	return []string{
@@ -178,6 +205,9 @@ func (propC10) Gen(r *simrt.Rand, idx int, tier string) any {
 		}
 	case "reader", "cancel":
 		c.FailAt = p
+		if c.Kind == "reader" {
+			c.ErrKind = []string{"", "", "wrapeof", "unexpected", "withdata"}[(idx/21)%5]
+		}
 		if c.Via == "set" {
 			c.Via = "setr"
 		}
@@ -312,7 +342,7 @@ func (propC10) Exec(x any, choices []int32) RunOut {
 		var src io.Reader = &shapedReader{b: content, shape: c.Shape}
 		switch c.Kind {
 		case "reader":
-			src = &failingReader{b: content, failAt: c.FailAt, fired: &fired, chunk: 1500}
+			src = &failingReader{b: content, failAt: c.FailAt, fired: &fired, chunk: 1500, err: sourceErr(c.ErrKind), withD: c.ErrKind == "withdata"}
 			wantClass = "source"
 		case "cancel":
 			ctx, cancel = sctx.WithCancel(w.Ctx)
@@ -415,7 +445,7 @@ func (propC10) Exec(x any, choices []int32) RunOut {
 				fail("error-class", "wrong-class", fmt.Sprintf("the write failed with class %q (%v), want %s", cl, opErr, wantClass))
 			}
 		case "source":
-			if c.Client == "inline" && !errors.Is(opErr, errSource) {
+			if c.Client == "inline" && !errors.Is(opErr, sourceErr(c.ErrKind)) {
 				fail("error-class", "wrong-class", fmt.Sprintf("the source reader failed; the write returned %v, which does not wrap the reader's error", opErr))
 			}
 		}
